@@ -161,6 +161,7 @@ enum onetbb_verif_id {
     vp_scan_finish               = 207, // finish_scan before loading the right zombie
     vp_sort_pretest              = 208, // between the pre-test loop and the cancellation check
     vp_part_auto_demand          = 209, // auto_partition_type::check_for_demand
+    vp_part_pool_wrap            = 197, // range_vector::split_to_fill: the head of the circular range pool wrapped to slot 0 (coverage only)
     // --- tbbmalloc ---
     vp_tm_public_free_push       = 210,
     vp_tm_privatize              = 211,
